@@ -115,6 +115,15 @@ fn cells() -> Vec<Value> {
             id += 1;
         }
     }
+    // one client TLS configuration (one ticket store) used against two servers of this process in a
+    // row: what the first one granted must not carry over to the second
+    for (first, second) in [("TT", "OO"), ("OO", "TT"), ("TT", "TO")] {
+        v.push(json!({"cell": id, "pass": "forward", "family": "one-config-two-servers", "first": first, "second": second}));
+        id += 1;
+    }
+    // hundreds of refused peers must not wear a server out for certified ones
+    v.push(json!({"cell": id, "pass": "forward", "family": "many-refusals", "refused_peers": 300}));
+    id += 1;
     // a certified peer that sends no server name in its TLS hello is certified all the same
     v.push(json!({"cell": id, "pass": "forward", "family": "no-server-name"}));
     id += 1;
@@ -142,6 +151,45 @@ async fn try_register(conn: anyhow::Result<RawConn>, topic: &str) -> bool {
         anyhow::Ok(first == Some(Frame::Ok))
     };
     matches!(tokio::time::timeout(Duration::from_secs(20), fut).await, Ok(Ok(true)))
+}
+
+/// A peer with identity X and trust X dials server `first` (same world X: accepted), then, with
+/// the very same TLS configuration, server `second` (another world): it must be refused there.
+async fn one_config_two_servers(w: &World, first: &str, second: &str) -> Result<String, Fail> {
+    let class = format!("one-config:{first}->{second}");
+    let srv = |n: &str| w.servers.iter().find(|s| s.0 == n.chars().next().unwrap() && s.1 == n.chars().nth(1).unwrap()).unwrap().2;
+    let (ca, id) = if first.starts_with('T') { (&w.t.ca, &w.t.client) } else { (&w.o.ca, &w.o.client) };
+    let (a, b) = RawConn::connect_twice_with_one_config(srv(first), srv(second), ca, Some(id)).await;
+    let first_ok = try_register(a, "/c15ns/onecfga").await;
+    if !first_ok {
+        return Err(fail("refused-trusted-peer", &class, format!("the first dial (server {first}, same world) did not register")));
+    }
+    if try_register(b, "/c15ns/onecfgb").await {
+        return Err(fail(
+            "accepted-untrusted-peer",
+            &class,
+            format!("a peer registered on server {first} and then, with the same TLS client configuration (same session-ticket store), dialled server {second} of the same process, which verifies against / presents another CA: a stream was registered there although neither side's certificate chains to the other's CA"),
+        ));
+    }
+    Ok("refused-on-the-second-server".into())
+}
+
+/// `n` peers without a certificate are refused one after the other; afterwards (and in between) a
+/// certified client must still be served.
+async fn many_refusals(w: &World, n: usize) -> Result<String, Fail> {
+    let set = CertSet { ca: w.t.ca.clone(), server: w.t.server.clone(), client: w.t.client.clone() };
+    let addr = net::start_server(&set).map_err(|e| fail("setup", "server", e.to_string()))?;
+    for i in 0..n {
+        let peer = if i % 2 == 0 { RawConn::connect(addr, &w.t.ca, None).await } else { RawConn::connect(addr, &w.t.ca, Some(&w.selfsigned)).await };
+        if let Ok(c) = peer {
+            // under TLS 1.3 the dial itself may succeed before the server has judged the peer
+            let _ = tokio::time::timeout(Duration::from_millis(300), c.conn.closed()).await;
+        }
+        if (i + 1) % 100 == 0 && !try_register(RawConn::connect(addr, &w.t.ca, Some(&w.t.client)).await, "/c15ns/afterrefusals").await {
+            return Err(fail("refused-trusted-peer", "after-many-refusals", format!("after {} peers without a valid certificate had been refused, a certified client could no longer register a stream", i + 1)));
+        }
+    }
+    Ok("certified-client-still-served".into())
 }
 
 /// A T-certified raw peer that does not send the server-name extension, against the (T,T) server.
@@ -260,6 +308,12 @@ async fn one_cell(w: Arc<World>, c: Value) -> (bool, Result<String, Fail>) {
     if c["family"] == "generator-rerun" {
         return (true, generator_rerun(c["runs"].as_u64().unwrap() as usize).await);
     }
+    if c["family"] == "one-config-two-servers" {
+        return (true, one_config_two_servers(&w, c["first"].as_str().unwrap(), c["second"].as_str().unwrap()).await);
+    }
+    if c["family"] == "many-refusals" {
+        return (true, many_refusals(&w, c["refused_peers"].as_u64().unwrap() as usize).await);
+    }
     if c["family"] == "no-server-name" {
         return (true, no_server_name(&w).await);
     }
@@ -330,7 +384,7 @@ pub async fn run(tier: &str, replaying: bool) -> ! {
     finish(
         rep,
         outs,
-        "every cell of: server configuration (CA used to verify clients, CA of the certificate it presents) in {T,O}x{T,O} x client trust store {T,O} x client identity {T-certified, O-certified, self-signed, none, and T-/O-certified given as a PEM bundle 'leaf + issuing CA'} x peer {real client library, raw QUIC peer} (no-certificate only via the raw peer, bundles only via the library), run in a forward and a backward order within one process; T is the certificate set produced by the repository's bundled generator (fresh keys every run), O an independent CA. Oracle: a registration is answered Ok iff the server's certificate chains to the client's CA and the client's certificate chains to the server's CA. non-trivial = every cell except the plainly trusted pairs. Plus: a certified raw peer that sends no server name in its TLS hello must register. Plus: a server whose CA file is a PEM bundle of two CAs made by the bundled generator (in both orders) must admit clients of either and nobody else. Plus: the server started with a CA file that holds no usable trust anchor (PEM text under a .der name, truncated DER, empty, garbage, a private key, a PEM file without certificates) must either refuse to start or certify nobody (T-, O-certified, self-signed and certificate-less raw peers are all tried). Plus: the bundled generator is run 8 times into the same directories, and after every run its files must start a server and let a client register",
+        "every cell of: server configuration (CA used to verify clients, CA of the certificate it presents) in {T,O}x{T,O} x client trust store {T,O} x client identity {T-certified, O-certified, self-signed, none, and T-/O-certified given as a PEM bundle 'leaf + issuing CA'} x peer {real client library, raw QUIC peer} (no-certificate only via the raw peer, bundles only via the library), run in a forward and a backward order within one process; T is the certificate set produced by the repository's bundled generator (fresh keys every run), O an independent CA. Oracle: a registration is answered Ok iff the server's certificate chains to the client's CA and the client's certificate chains to the server's CA. non-trivial = every cell except the plainly trusted pairs. Plus: one TLS client configuration (one session-ticket store) used against two servers of the process in a row, the second of another world: refused there. Plus: 300 refused peers in a row, a certified client served after every 100. Plus: a certified raw peer that sends no server name in its TLS hello must register. Plus: a server whose CA file is a PEM bundle of two CAs made by the bundled generator (in both orders) must admit clients of either and nobody else. Plus: the server started with a CA file that holds no usable trust anchor (PEM text under a .der name, truncated DER, empty, garbage, a private key, a PEM file without certificates) must either refuse to start or certify nobody (T-, O-certified, self-signed and certificate-less raw peers are all tried). Plus: the bundled generator is run 8 times into the same directories, and after every run its files must start a server and let a client register",
         "finite configuration space enumerated completely, sequentially, in two orders",
         json!({}),
         replaying,
